@@ -46,7 +46,8 @@ def gen_case(rng, tier, methods=('cycles', 'amp'), centers=('peak', 'trough'), k
     `filter_kwargs` and a burst_fraction_threshold taken from a first run (`bft_pick`); the default keeps the original
     stream of the drivers that did not ask for it.  `signal`: a ready-made gen.signal dictionary.  Every case gets a
     `key_order` (insertion order of the option dictionaries; drawn from a generator seeded with the case content so
-    that the main stream is not shifted)."""
+    that the main stream is not shifted) and the fields drawn by `mechanisms` (`prebuffer`, `readonly`, `rejected`:
+    the analysis on a refilled work buffer, on a read-only array, after rejected calls; same kind of generator)."""
     s = signal if signal is not None else gen.signal(rng, kind=(rng.choice(kinds) if kinds else None), max_len=max_len)
     if wide:
         s = gen.vary(rng, s, f32=f32)
@@ -123,6 +124,7 @@ def gen_case(rng, tier, methods=('cycles', 'amp'), centers=('peak', 'trough'), k
     if extra:
         c.update(extra)
     c['key_order'] = key_order(c)
+    c.update(mechanisms(c))
     return c
 
 
@@ -159,6 +161,7 @@ def gen_routing_case(rng, tier):
             bk['filter_kwargs'] = {'n_cycles': rng.choice([1, 2])}
     c['thr'], c['bk'] = thr, bk
     c['key_order'] = key_order(c)
+    c.update(mechanisms(c))
     return c
 
 
@@ -169,7 +172,7 @@ def key_order(c):
     """Insertion order of the keys of the caller's option dictionaries and of the keyword arguments themselves
     (a caller does not write his settings in any canonical order).  Drawn from a generator seeded with the case content,
     stored in the case (`key_order`) and honoured by build_kwargs, so that a case replays exactly."""
-    r = random.Random(canon_hash({k: v for k, v in c.items() if k not in ('key_order', 'history')}))
+    r = random.Random(canon_hash({k: v for k, v in c.items() if k not in ('key_order', 'history') + MECH_FIELDS}))
     ko = {}
     for name in ('fek', 'thr', 'bk'):
         d = c.get(name)
@@ -198,6 +201,177 @@ def _ordered(d, order):
         if k not in out:
             out[k] = d[k]
     return out
+
+
+# ----------------------------------------------------------------------------------------------
+# how the caller holds his data and what he did before the judged analysis (applies to every compute_features case)
+
+MECH_FIELDS = ('prebuffer', 'readonly', 'rejected')
+BAD_FEK_KEYS = [('boundry', 5), ('first_extremum', 'peak'), ('padding', True), ('filter_kwarg', {'n_cycles': 3}), ('n_cycles', 3),
+                ('Boundary', 0)]
+BAD_THR_KEYS = [('min_n_cycle', 3), ('min_cycles', 2), ('amp_fraction_thresh', 0.3), ('burst_fraction_thresh', 0.5),
+                ('monotonicity_thresh', 0.8)]
+BAD_CENTERS = ['peaks', 'troughs', 'Peak', 'both', '', None, 0]
+BAD_METHODS = ['amplitude', 'cycle', 'Cycles', 'consistency', '', None]
+BAD_BANDS = ['reversed', 'negative', 'above_nyquist', 'scalar', 'one_element', 'equal']
+
+
+def mechanisms(c):
+    """Three circumstances of an ordinary analysis session, each drawn independently for a share of the cases from a
+    generator seeded with the case content (so that the main stream of no driver is shifted; stored in the case, so a
+    case replays exactly):
+      prebuffer {'seed'}  (~30 %)  the judged analysis is made on an ndarray object that was first filled with ANOTHER
+                          signal of the same length and type (decoy_signal) and analysed once with the same option
+                          objects, then refilled in place with the case's samples (`work[:] = data[ch]`);
+      readonly True       (~20 %)  every analysis of the case gets its array with the WRITEABLE flag cleared (what
+                          pandas 3 `.to_numpy()`, np.load(mmap_mode='r'), np.broadcast_to hand out);
+      rejected [...]      (~20 %)  1-2 calls that the library rejects (mis-spelt option key, invalid band, invalid centre
+                          or burst method) made on the case's OWN signal object and option objects directly before the
+                          judged analysis; a mis-spelt key is put into the caller's own dictionary and taken out again
+                          after the rejection."""
+    r = random.Random(canon_hash({k: v for k, v in c.items() if k not in ('key_order', 'history') + MECH_FIELDS}) + '/mech')
+    m = {}
+    if r.random() < 0.30:
+        m['prebuffer'] = {'seed': r.randrange(1 << 30)}
+    if r.random() < 0.20:
+        m['readonly'] = True
+    if r.random() < 0.20:
+        m['rejected'] = [gen_rejected(r) for _ in range(r.choice([1, 1, 2]))]
+    return m
+
+
+def gen_rejected(r):
+    what = r.choice(['fek_key', 'fek_key', 'fek_key', 'f_range', 'f_range', 'center', 'method', 'thr_key', 'thr_key'])
+    h = {'what': what}
+    if what == 'fek_key':
+        h['key'], h['value'] = r.choice(BAD_FEK_KEYS)
+    elif what == 'thr_key':
+        h['key'], h['value'] = r.choice(BAD_THR_KEYS)
+    elif what == 'f_range':
+        h['how'] = r.choice(BAD_BANDS)
+    elif what == 'center':
+        h['value'] = r.choice(BAD_CENTERS)
+    else:
+        h['value'] = r.choice(BAD_METHODS)
+    return h
+
+
+def bad_band(c, how):
+    lo, hi = c['f_range']
+    b = {'reversed': [hi, lo], 'negative': [-lo, hi], 'above_nyquist': [lo, float(c['fs'])], 'equal': [lo, lo],
+         'one_element': [lo]}.get(how)
+    if b is None:
+        return lo                                               # 'scalar'
+    return b if c.get('f_range_as') == 'list' else tuple(b)
+
+
+def decoy_signal(c):
+    """Another signal of the same length, sample type and order of magnitude as the case's (a rhythm inside the
+    analysed band with a slow amplitude modulation, plus noise), from the seed stored in the case."""
+    seed = c['prebuffer']['seed']
+    r = random.Random(seed)
+    nr = np.random.default_rng(seed)
+    n = len(c['sig'])
+    sigf = gen.unhexlist(c['sig'])
+    scale = float(np.max(np.abs(sigf))) if n else 1.0
+    if not (scale > 0 and math.isfinite(scale)):
+        scale = 1.0
+    period = 2.0 * c['fs'] / (c['f_range'][0] + c['f_range'][1]) * r.choice([0.85, 1.0, 1.2])
+    t = np.arange(n)
+    x = np.sin(2 * math.pi * t / period + r.random() * 2 * math.pi)
+    x = x * (1 + 0.6 * np.sin(t / (3.3 * period) + r.random() * 6)) + 0.15 * nr.standard_normal(n)
+    x = x * scale * r.choice([0.5, 1.0, 2.0])
+    if c.get('dtype') == 'int64':
+        x = np.round(x)
+    return gen.typed(np.asarray(x, dtype=float), c.get('dtype'))
+
+
+def _lock(a, c):
+    """Clear the WRITEABLE flag of an array the case passes read-only."""
+    if c.get('readonly'):
+        a.setflags(write=False)
+    return a
+
+
+def _unlock(a):
+    a.setflags(write=True)
+    return a
+
+
+def _outcome(f):
+    import warnings
+    try:
+        with warnings.catch_warnings():
+            warnings.simplefilter('ignore')
+            f()
+        return 'ok'
+    except Exception as e:
+        return '%s: %s' % (type(e).__name__, str(e)[:80])
+
+
+def refilled_buffer(c, sig, analyse):
+    """The work buffer of a `prebuffer` case: a new ndarray of the type of `sig`, filled with the decoy, analysed once by
+    `analyse(array)` (outcome recorded, not judged), refilled in place with the samples of `sig`.  Returns (buffer,
+    outcome of the decoy analysis)."""
+    work = np.empty_like(sig)
+    work[:] = decoy_signal(c)
+    _lock(work, c)
+    res = _outcome(lambda: analyse(work))
+    _unlock(work)
+    work[:] = sig
+    return work, res
+
+
+def run_rejected(c, sig, kw):
+    """The rejected calls of the case, on the case's own array object and option objects.  What they raise is recorded,
+    not judged (a call that is NOT rejected is recorded as 'accepted': whether an invalid option is rejected is C19's
+    subject, not that of the pipeline properties)."""
+    from bycycle.features import compute_features
+    res = []
+    for h in c['rejected']:
+        center, method, band, kw2, undo = c['center'], c['method'], band_of(c), kw, None
+        w = h['what']
+        if w in ('fek_key', 'thr_key'):
+            name = 'find_extrema_kwargs' if w == 'fek_key' else 'threshold_kwargs'
+            d = kw.get(name)
+            if isinstance(d, dict):
+                d[h['key']] = h['value']                    # the caller's own dictionary object
+                undo = d
+            else:
+                kw2 = dict(kw)
+                kw2[name] = {h['key']: h['value']}
+        elif w == 'f_range':
+            band = bad_band(c, h['how'])
+        elif w == 'center':
+            center = h['value']
+        elif w == 'method':
+            method = h['value']
+        try:
+            r = _outcome(lambda: compute_features(sig, c['fs'], band, center_extrema=center, burst_method=method,
+                                                  return_samples=c['return_samples'], **kw2))
+        finally:
+            if undo is not None:
+                undo.pop(h['key'], None)                     # the mistake is corrected: `del d[key]`
+        res.append('accepted' if r == 'ok' else r)
+    return res
+
+
+def context(c):
+    """Circumstances of the judged analysis, for failure messages."""
+    parts = []
+    if c.get('readonly'):
+        parts.append('read-only input array')
+    if c.get('prebuffer'):
+        parts.append('array object refilled in place after an analysis of other data')
+    if c.get('rejected'):
+        parts.append('after %d rejected call(s) on the same objects' % len(c['rejected']))
+    if c.get('history'):
+        parts.append('after %d helper call(s)' % len(c['history']))
+    return ' [%s]' % '; '.join(parts) if parts else ''
+
+
+def with_context(c, msg):
+    return msg + context(c) if msg else msg
 
 
 # ----------------------------------------------------------------------------------------------
@@ -389,14 +563,23 @@ def run_pipe(c):
         out['history'] = run_history(c['history'], 'start')
     snap = sig.copy()
     kw = build_kwargs(c)
+    pre = bool(c.get('prebuffer'))
     if c.get('bft_pick') and c['method'] == 'amp':
-        t = _first_run_threshold(sig, c, kw)
+        # (a refilled-buffer case makes this first run on a private copy, so that the judged analysis is the first one
+        # after the refill and the decoy analysis has the very settings of the judged one)
+        t = _first_run_threshold(_lock(sig.copy() if pre else sig, c), c, kw)
         if t is not None:
             out['bft_used'] = float(t).hex()
             tk = dict(kw.get('threshold_kwargs') or {})
             tk['burst_fraction_threshold'] = t
             kw['threshold_kwargs'] = tk
             rs = resolved(c, out)
+    if pre:
+        # one ndarray object for one signal after the other: decoy analysed with the same option objects, then refilled
+        sig, out['prebuffer'] = refilled_buffer(c, sig, lambda a: call_compute_features(a, c, return_samples=True, kw=kw))
+    _lock(sig, c)
+    if c.get('rejected'):
+        out['rejected'] = run_rejected(c, sig, kw)
     try:
         df = call_compute_features(sig, c, return_samples=True, kw=kw)
     except Exception as e:
@@ -438,11 +621,15 @@ def run_pipe(c):
         inpl = bool(c.get('mirror_inplace')) and inplace_ok
         try:
             if inpl:
+                _unlock(sig)
                 np.negative(sig, out=sig)           # the very same ndarray object, negated in place
+                _lock(sig, c)
                 out['mirror_inplace'] = True
                 arg = sig
             else:
-                arg = -sig
+                # the negated signal as the caller prepared it beforehand (from the samples as they were before any call
+                # of the case: a call that leaves the caller's array modified must not be mirrored along with it)
+                arg = _lock(-snap, c)
             dfm = call_compute_features(arg, c, center=other, kw=kw)
             out['mirror_columns'] = sorted(str(x) for x in dfm.columns)
             rowsm, hsm = table_to_rows(dfm, other)
@@ -457,16 +644,20 @@ def run_pipe(c):
             out['mirror_errmsg'] = str(e)[:200]
         finally:
             if inpl:
+                _unlock(sig)
                 sig[:] = snap
+                _lock(sig, c)
     if 'rows' in out and c.get('scale_pow') is not None:
         inpl = bool(c.get('scale_inplace')) and inplace_ok
         try:
             if inpl:
+                _unlock(sig)
                 sig *= 2.0 ** c['scale_pow']        # the very same ndarray object, rescaled in place
+                _lock(sig, c)
                 out['scale_inplace'] = True
                 arg = sig
             else:
-                arg = sig * (2.0 ** c['scale_pow'])
+                arg = _lock(snap * (2.0 ** c['scale_pow']), c)          # prepared from the samples as generated
             dfs = call_compute_features(arg, c, kw=kw)
             out['scaled_columns'] = sorted(str(x) for x in dfs.columns)
             out['scaled'] = _jsonable(table_to_rows(dfs, c['center'])[0])
@@ -475,7 +666,9 @@ def run_pipe(c):
             out['scaled_errmsg'] = str(e)[:200]
         finally:
             if inpl:
+                _unlock(sig)
                 sig[:] = snap
+                _lock(sig, c)
     if 'rows' in out and c.get('fs_mult') is not None:
         try:
             m = c['fs_mult']
@@ -625,6 +818,7 @@ def gen_shape_case(rng, tier):
     c = gen_case(rng, tier, methods=('cycles',), fek_prob=0.5, wide=True)
     c['kind'] = 'shape/' + c['kind'].split('/', 2)[2]
     c.update(shape_only=True, n_cycles=rng.choice([2, 3, 5]), thr=None, bk=None, return_samples=True)
+    c.pop('rejected', None)                 # rejected calls are made through compute_features (run_pipe) only
     return c
 
 
@@ -654,6 +848,11 @@ def run_shape(c):
     except Exception as e:
         return {'skip': 'reference kernel failed: %s: %s' % (type(e).__name__, e)}
     fek = _deep(c['fek']) if c['fek'] is not None else None
+    snap = sig.copy()
+    if c.get('prebuffer'):
+        sig, out['prebuffer'] = refilled_buffer(c, sig, lambda a: compute_shape_features(
+            a, c['fs'], band_of(c), center_extrema=c['center'], find_extrema_kwargs=fek, n_cycles=k))
+    _lock(sig, c)
     try:
         df = compute_shape_features(sig, c['fs'], band_of(c), center_extrema=c['center'], find_extrema_kwargs=fek, n_cycles=k)
     except Exception as e:
@@ -662,6 +861,7 @@ def run_shape(c):
         out['errmsg'] = str(e)[:200]
     if df is not None:
         _rows_of(df, c, out, shape_only=True)
+    out['sig_unchanged'] = bool(np.array_equal(sig, snap))
     if 'rows' not in out:
         return out
     diffs = []
@@ -1271,7 +1471,8 @@ def premise_failed(o):
 
 def extra_evidence():
     """Counters of this run: cases on which the model comparison was void (model answers Err EDegenerate); cases carrying
-    a history / an in-place replay / a re-ordered option dictionary / a threshold from a first run; premise checks."""
+    a history / an in-place replay / a re-ordered option dictionary / a threshold from a first run / a refilled work
+    buffer / a read-only input / rejected calls before the judged analysis; premise checks."""
     ev = {'model_comparison_void_cases': VOID['n']}
     ev.update(COUNTS)
     return ev
@@ -1288,6 +1489,16 @@ def kind_of(c, o):
         _count('cases_with_history')
         _count('history_calls', len(c['history']))
         _count('history_calls_raised', sum(1 for x in o.get('history', []) if x != 'ok'))
+    if 'ref' in o:
+        if c.get('prebuffer'):
+            _count('cases_on_a_refilled_buffer')
+            _count('decoy_analyses_that_raised', int(o.get('prebuffer') != 'ok'))
+        if c.get('readonly'):
+            _count('cases_with_read_only_input')
+        if c.get('rejected'):
+            _count('cases_after_rejected_calls')
+            _count('rejected_calls', len(c['rejected']))
+            _count('rejected_calls_not_rejected', sum(1 for x in o.get('rejected', []) if x == 'accepted'))
     if o.get('mirror_inplace'):
         _count('mirror_replays_in_place')
     if o.get('scale_inplace'):
